@@ -98,15 +98,23 @@ def op_instances(rng, h):
         out.append(("remove_track(in 3+ crates)", "rmtrack %s" % t0))
     sub = h.heaviest_subtree()
     if sub:
+        # renaming / moving a crate that has sub-crates rewrites the paths of the whole subtree (1.x update_path)
+        out.append(("crate.set_name(with sub-crates)", "rename %s %s" % (sub, G.hx(h.fresh_name(h.crates[sub])))))
         out.append(("remove_crate(subtree with tracks)", "rmcrate %s" % sub))
-        kids = sorted(h.siblings(sub))
-        leaf = [k for k in kids if not h.descendants(k) and h.members_of(k)]
-        if leaf:
-            out.append(("remove_crate(leaf with tracks)", "rmcrate %s" % leaf[0]))
-        if len(kids) >= 2:
+    # a leaf crate that holds tracks, and a crate that is not the last among its siblings: looked for in the whole
+    # state (the enriched prior states contain both; which crate it is does not matter)
+    leaves = sorted(c for c in h.crates if not h.descendants(c) and h.members_of(c))
+    if leaves:
+        out.append(("remove_crate(leaf with tracks)", "rmcrate %s" % leaves[0]))
+    done = False
+    for par in [sub] + sorted(c for c in h.crates if c != sub) + [None]:
+        kids = sorted(h.siblings(par)) if (par is None or par in h.crates) else []
+        if len(kids) >= 2 and not done:
+            n0 = len(out)
             inst("setparent", tries=12, want="crate.set_parent", c=kids[len(kids) // 2 - (len(kids) % 2 == 0)])
-            if out[-1][0] == "crate.set_parent":
+            if len(out) > n0 and out[-1][0] == "crate.set_parent":
                 out[-1] = ("crate.set_parent(non-last sibling)", out[-1][1])
+                done = True
     inst("mktrack", rich=True); out[-1] = ("create_track(rich)", out[-1][1])
     inst("mktrack", rich=False); out[-1] = ("create_track(minimal)", out[-1][1])
     inst("update"); inst("rmtrack")
@@ -200,7 +208,7 @@ def grep_raw_transactions():
     return hits
 
 
-MULTI_ROW_OPS = ["crate.clear_tracks(3+ tracks)", "crate.remove_track(first of 3+)", "crate.remove_track(middle of 3+)",
+MULTI_ROW_OPS = ["crate.set_name(with sub-crates)", "crate.clear_tracks(3+ tracks)", "crate.remove_track(first of 3+)", "crate.remove_track(middle of 3+)",
                  "crate.remove_track(last of 3+)", "remove_track(in 3+ crates)", "remove_crate(subtree with tracks)",
                  "remove_crate(leaf with tracks)", "crate.set_parent(non-last sibling)"]
 EXPECTED_OPS = MULTI_ROW_OPS + ["create_root_crate", "create_root_crate_after", "create_sub_crate", "create_sub_crate_after",
@@ -238,8 +246,11 @@ def tie(ctx):
     # ---- pass 1: record the shape of every operation in every state
     cases = []   # dict(schema, state, hist, opname, line)
     state_shapes = []
+    newest = {G.SCHEMAS_V1[-1], G.SCHEMAS_V2[-1]}
     for sch in schemas:
-        for si in range(n_states):
+        # quick: two prior states on the newest version of each generation (every operation, every fault position),
+        # one on the seeded other version; thorough: four on all 18
+        for si in range(n_states if (thorough or sch in newest) else 1):
             h = G.gen_history(rng, sch, [6, 14, 24, 34][(si + ctx.seed) % 4], enrich=True)
             state_shapes.append(dict(h.shape(), schema=sch, calls=len(h.lines)))
             for opname, line in op_instances(rng, h):
